@@ -202,7 +202,8 @@ func wireKeyText(k interface{}) string {
 // generators of valid wire values (Go-side representation as the API takes them)
 
 type wgen struct {
-	g *gen.G
+	bigBounds bool // integer bounds of base types beyond 2^53 (C12; C19 passes its trees through float64)
+	g         *gen.G
 }
 
 func (w *wgen) uuid() ovsdb.UUID {
@@ -325,7 +326,7 @@ func (w *wgen) baseJSON(forceObj bool) interface{} {
 	case "integer":
 		pair("minInteger", "maxInteger", -2, 1)
 		// bounds no float64 holds exactly: neighbours of 2^53 and the ends of int64
-		if w.g.Chance(0.3) {
+		if w.bigBounds && w.g.Chance(0.3) {
 			big := []int64{9007199254740993, 9007199254740995, 9223372036854775807, 4611686018427387905, 9007199254740992}
 			sml := []int64{-9007199254740993, -9223372036854775808, -9223372036854775807, -4611686018427387905, 0}
 			switch w.g.Intn(3) {
